@@ -333,6 +333,19 @@ fn run_scenario(sc: &Value) -> Value {
                     r.insert("error".into(), json!("no such context"));
                 }
             }
+            "split" => {
+                let t = st["text"].as_str().unwrap_or("").to_string();
+                let colon = b(st, "colon", false);
+                let quote = b(st, "smart_quote", false);
+                match guarded(|| riti::context::verif_split(&t, colon, quote)) {
+                    Ok((a, w, c)) => {
+                        r.insert("parts".into(), json!([a, w, c]));
+                    }
+                    Err(p) => {
+                        r.insert("panic".into(), json!(p));
+                    }
+                }
+            }
             "suggestion_new" => {
                 // Build a Suggestion value directly through the public constructors.
                 use riti::suggestion::Rank;
